@@ -6,16 +6,20 @@ Reads  <repo>/bermuda/io/binary.py         -> format constants (evaluated struct
 and emits a Coq module GenBin.v with
    Definition MAGIC : list Z := ... (one per constant)
    Definition layout : list (string * list string)
-where each function is described by the ordered list of its *stream events*:
-   WRITE <CONST> | PACK <fmt> <args> | WRITERAW <expr> | UNPACK <fmt> <n> | READ <expr> | PEEK
-   | CALL <_write_x/_read_x> <argument / keyword it is bound to>
-   | IF/ELIF <cond> | ELSE | ENDIF | LOOP <header> | ENDLOOP | WITH <ctx> | ENDWITH
-   | RETURN <expr> | RAISE <class> | WARN | BREAK | CONTINUE | OPAQUE
-Expressions are printed with ast.unparse after normalisation: parameters become $0,$1,..; a local
-that is assigned once from a pure expression is inlined; other locals become %0,%1,.. in order of
-first binding.  Hence the description is insensitive to comments, docstrings, formatting, local
-renaming, exception/warning messages and to moving pure statements, and sensitive to every format
-string, constant, field order, loop/branch condition and return expression.
+where each function is described by the list of its execution PATHS (symbolic execution, see the
+comment above FunctionTranslator): per path the assumed conditions, the ordered stream events
+   WRITE <CONST> | PACK <fmt> <args> | WRITERAW <expr> | @k UNPACK <fmt> <n> | @k READ <expr> | @k PEEK ..
+   | @k CALL <_write_x/_read_x> <symbolic arguments> | LOOP <header> .. ENDLOOP | WITH <ctx> .. ENDWITH
+   | WARN | OPAQUE (the S3 branch)
+and RETURN <expr> / RAISE <class>.  Expressions are symbolic: parameters are $0,$1,..; results of stream
+accesses @k; loop elements elem(E)/index(E); locals are substituted by their definitions (a local that is
+mutated in place becomes %0,%1,.. numbered by first appearance); `math.prod(S)` and the accumulate loop
+are both prod(S); a dict filled in an enumerate loop and the equivalent comprehension are both
+index_table(E).  Hence the description is insensitive to comments, docstrings, formatting, renaming,
+exception/warning messages, naming/inlining temporaries, hoisting reads common to all branches in front
+of the branching, choosing a value in branches and writing it at one site, if/else vs conditional
+expression -- and sensitive to every format string, constant, event order, condition and returned
+expression.
 
 Anything outside the expected statement/expression shapes aborts (TranslationError).
 """
@@ -60,28 +64,43 @@ def extract_constants(src: str) -> dict[str, list[int]]:
 
 
 # ---------------------------------------------------------------------------- functions
+# Each codec function is executed SYMBOLICALLY: locals are substituted by the expressions that define
+# them, every stream access becomes an event whose result is the symbol @k, `if` statements and
+# conditional expressions fork the execution into PATHS.  A path is described by the conditions it
+# assumed (in evaluation order), the stream events it performed (in order) and what it returned.
+# Because conditions and events are listed separately and locals never appear, the description does
+# not change when a maintainer
+#   * names / inlines / renames a temporary, hoists reads that every branch performs in the same order
+#     in front of the branching, lets the branches choose a value and writes it at one shared site,
+#     turns an if/else around a write into a conditional expression (or back),
+#   * replaces `acc = 1; for x in S: acc *= x` by math.prod(S), or a dict filled in an enumerate loop by
+#     the equivalent dict comprehension, or splits such a loop in two,
+# while every constant, struct format, event order, condition and returned expression still shows.
 STREAM_METHODS = {"read", "write", "peek"}
+MAX_PATHS = 64
 
 
-def _is_codec_call(node):
-    return (isinstance(node, ast.Call) and isinstance(node.func, ast.Name)
-            and (node.func.id.startswith("_write_") or node.func.id.startswith("_read_")))
+def _is_codec_name(name):
+    return name.startswith("_write_") or name.startswith("_read_")
 
 
-def _stream_method(node, params):
-    """'read' / 'write' / 'peek' when node is <param>.<method>(...)."""
-    if (isinstance(node, ast.Call) and isinstance(node.func, ast.Attribute)
-            and node.func.attr in STREAM_METHODS and isinstance(node.func.value, ast.Name)
-            and node.func.value.id in params):
-        return node.func.attr
-    return None
+class _State:
+    def __init__(self, env, conds=None, events=None):
+        self.env = env
+        self.conds = conds or []
+        self.events = events or []
+        self.nev = 0
+        self.done = None          # "RETURN <expr>" / "RAISE <cls>" / "BREAK" / "CONTINUE"
 
+    def fork(self):
+        st = _State(dict(self.env), list(self.conds), list(self.events))
+        st.nev = self.nev
+        return st
 
-def _has_effect(node, params):
-    for n in ast.walk(node):
-        if _is_codec_call(n) or _stream_method(n, params):
-            return True
-    return False
+    def emit(self, text, result=True):
+        self.nev += 1
+        self.events.append(f"@{self.nev} {text}" if result else text)
+        return f"@{self.nev}"
 
 
 class FunctionTranslator:
@@ -93,308 +112,467 @@ class FunctionTranslator:
         if a.vararg or a.kwarg or a.kwonlyargs or a.posonlyargs:
             raise TranslationError(f"{fn.name}: unexpected signature")
         self.params = [x.arg for x in a.args]
-        self.events: list[str] = []
-        self._collect_locals()
+        for n in ast.walk(fn):
+            if isinstance(n, (ast.Lambda, ast.FunctionDef, ast.AsyncFunctionDef, ast.ClassDef, ast.Global,
+                              ast.Nonlocal, ast.Await, ast.Yield, ast.YieldFrom, ast.NamedExpr,
+                              ast.Match, ast.Delete)) and n is not fn:
+                raise TranslationError(f"{fn.name}: unsupported construct {type(n).__name__}")
+        self.stream_params = {p for p in self.params if self._used_as_stream(p)}
+        self.ncomp = 0
 
-    # -- names ---------------------------------------------------------------------------
-    def _collect_locals(self):
-        assigns: dict[str, list] = {}
-        order: list[str] = []
-
-        def bind(name, value):
-            if name in self.params:
-                assigns.setdefault(name, []).append(None)  # rebinding a parameter: not inlinable
-                return
-            if name not in assigns:
-                order.append(name)
-            assigns.setdefault(name, []).append(value)
-
-        def targets(t, value):
-            if isinstance(t, ast.Name):
-                bind(t.id, value)
-            elif isinstance(t, (ast.Tuple, ast.List)):
-                for e in t.elts:
-                    targets(e, None)
-            elif isinstance(t, (ast.Subscript, ast.Attribute)):
-                pass
-            else:
-                raise TranslationError(f"{self.fn.name}: unexpected assignment target")
-
-        for n in ast.walk(self.fn):
-            if isinstance(n, ast.Assign):
-                for t in n.targets:
-                    targets(t, n.value)
-            elif isinstance(n, ast.AnnAssign):
-                targets(n.target, n.value)
-            elif isinstance(n, ast.AugAssign):
-                targets(n.target, None)
-            elif isinstance(n, (ast.For, ast.comprehension)):
-                targets(n.target, None)
-            elif isinstance(n, ast.With):
-                for it in n.items:
-                    if it.optional_vars is not None:
-                        targets(it.optional_vars, None)
-            elif isinstance(n, ast.Global):
-                raise TranslationError(f"{self.fn.name}: global statement")
-            elif isinstance(n, (ast.Lambda, ast.FunctionDef, ast.AsyncFunctionDef, ast.ClassDef)) and n is not self.fn:
-                raise TranslationError(f"{self.fn.name}: nested definition")
-        self.inline = {}
-        self.placeholder = {}
-        k = 0
-        for name in order:
-            vals = assigns[name]
-            if len(vals) == 1 and vals[0] is not None and not _has_effect(vals[0], self.params):
-                self.inline[name] = vals[0]
-            else:
-                self.placeholder[name] = f"%{k}"
-                k += 1
-        for name, vals in assigns.items():
-            if name in self.params:
-                # a rebound parameter keeps its $i name; nothing to inline
-                pass
-
-    def norm(self, node, depth=0) -> str:
-        if depth > 20:
-            raise TranslationError(f"{self.fn.name}: inlining too deep")
-        tr = self
-
-        class N(ast.NodeTransformer):
-            def visit_Name(self, n):
-                if n.id in tr.params:
-                    return ast.copy_location(ast.Name(id=f"${tr.params.index(n.id)}", ctx=n.ctx), n)
-                if n.id in tr.inline:
-                    return ast.parse(tr.norm(tr.inline[n.id], depth + 1), mode="eval").body if False else \
-                        _Raw(tr.norm(tr.inline[n.id], depth + 1))
-                if n.id in tr.placeholder:
-                    return ast.copy_location(ast.Name(id=tr.placeholder[n.id], ctx=n.ctx), n)
-                return n
-
-            def visit_JoinedStr(self, n):  # f-strings only occur in messages
-                return ast.Constant(value="<fstring>")
-
-        new = N().visit(copy.deepcopy(node))
-        ast.fix_missing_locations(new)
-        return _unparse(new)
-
-    # -- events --------------------------------------------------------------------------
-    def emit(self, s):
-        self.events.append(s)
-
-    def expr(self, e, kw=None):
-        """Emit the stream events of an expression in evaluation order."""
-        if e is None:
-            return
-        if isinstance(e, ast.Call):
-            sm = _stream_method(e, self.params)
-            f = e.func
-            # struct.unpack(fmt, stream.read(n))
-            if (isinstance(f, ast.Attribute) and f.attr == "unpack" and isinstance(f.value, ast.Name)
-                    and f.value.id == "struct"):
-                if (len(e.args) == 2 and isinstance(e.args[0], ast.Constant) and isinstance(e.args[0].value, str)
-                        and _stream_method(e.args[1], self.params) == "read" and len(e.args[1].args) == 1):
-                    self.emit(f"UNPACK {e.args[0].value} {self.norm(e.args[1].args[0])}")
-                    return
-                raise TranslationError(f"{self.fn.name}: unexpected struct.unpack shape: {ast.unparse(e)}")
-            if sm == "read":
-                if len(e.args) != 1 or e.keywords:
-                    raise TranslationError(f"{self.fn.name}: unexpected read() shape")
-                self.expr(e.args[0])
-                self.emit(f"READ {self.norm(e.args[0])}")
-                return
-            if sm == "peek":
-                self.emit(f"PEEK {','.join(self.norm(a) for a in e.args)}")
-                return
-            if sm == "write":
-                if len(e.args) != 1 or e.keywords:
-                    raise TranslationError(f"{self.fn.name}: unexpected write() shape")
-                x = e.args[0]
-                if isinstance(x, ast.Name) and x.id in self.consts:
-                    self.emit(f"WRITE {x.id}")
-                elif (isinstance(x, ast.Call) and isinstance(x.func, ast.Attribute) and x.func.attr == "pack"
-                      and isinstance(x.func.value, ast.Name) and x.func.value.id == "struct"):
-                    if not x.args or not isinstance(x.args[0], ast.Constant) or x.keywords:
-                        raise TranslationError(f"{self.fn.name}: unexpected struct.pack shape")
-                    for a in x.args[1:]:
-                        self.expr(a)
-                    self.emit(f"PACK {x.args[0].value} " + ",".join(self.norm(a) for a in x.args[1:]))
-                else:
-                    self.expr(x)
-                    self.emit(f"WRITERAW {self.norm(x)}")
-                return
-            if _is_codec_call(e):
-                descr = []
-                for a in e.args:
-                    self.expr(a)
-                    if not (isinstance(a, ast.Name) and a.id in self.params and self._is_stream_param(a.id)):
-                        descr.append(self.norm(a))
-                for k in e.keywords:
-                    self.expr(k.value)
-                    descr.append(f"{k.arg}={self.norm(k.value)}")
-                self.emit(f"CALL {f.id} " + (f"->{kw} " if kw else "") + ",".join(descr))
-                return
-            # any other call: evaluate callee, args, keywords in order
-            self.expr(f)
-            for a in e.args:
-                self.expr(a)
-            for k in e.keywords:
-                self.expr(k.value, kw=k.arg)
-            return
-        if isinstance(e, (ast.ListComp, ast.GeneratorExp, ast.SetComp)):
-            if not _has_effect(e, self.params):
-                return
-            if len(e.generators) != 1 or e.generators[0].ifs or e.generators[0].is_async:
-                raise TranslationError(f"{self.fn.name}: unexpected comprehension")
-            g = e.generators[0]
-            self.expr(g.iter)
-            self.emit(f"LOOP for in {self.norm(g.iter)}")
-            self.expr(e.elt)
-            self.emit("ENDLOOP")
-            return
-        if isinstance(e, (ast.IfExp, ast.DictComp, ast.Lambda, ast.NamedExpr, ast.Await, ast.Yield, ast.YieldFrom)):
-            if _has_effect(e, self.params):
-                raise TranslationError(f"{self.fn.name}: stream access inside {type(e).__name__}")
-            return
-        if isinstance(e, ast.BoolOp) and _has_effect(e, self.params):
-            raise TranslationError(f"{self.fn.name}: stream access inside a short-circuit operator")
-        for child in ast.iter_child_nodes(e):
-            if isinstance(child, ast.expr):
-                self.expr(child)
-            elif isinstance(child, ast.keyword):
-                self.expr(child.value, kw=child.arg)
-            elif isinstance(child, (ast.expr_context, ast.operator, ast.cmpop, ast.boolop, ast.unaryop)):
-                continue
-            elif isinstance(child, ast.comprehension):
-                raise TranslationError(f"{self.fn.name}: unexpected comprehension")
-            # slices etc. are expressions in py>=3.9
-
-    def _is_stream_param(self, name):
+    def _used_as_stream(self, name):
         for n in ast.walk(self.fn):
             if (isinstance(n, ast.Attribute) and n.attr in STREAM_METHODS and isinstance(n.value, ast.Name)
                     and n.value.id == name):
                 return True
-        # a parameter only handed on to other codec functions in the stream position
-        return name == "stream" or name in ("outfile", "infile")
+        return name in ("stream", "outfile", "infile")
 
-    def _significant(self, stmts) -> bool:
-        for s in stmts:
-            for n in ast.walk(s):
-                if isinstance(n, (ast.Return, ast.Raise, ast.Break, ast.Continue)):
-                    return True
-                if isinstance(n, ast.Assign) and any(isinstance(t, ast.Name) and t.id in self.params
-                                                     for t in n.targets):
-                    return True
-                if _is_codec_call(n) or _stream_method(n, self.params):
-                    return True
-                if isinstance(n, ast.Call) and ast.unparse(n.func) == "warnings.warn":
+    # ------------------------------------------------------------------ expressions
+    def _stream_call(self, e, st):
+        """'read'/'write'/'peek' when e is <stream>.<method>(...), where <stream> is a parameter or a local
+        bound to a context manager."""
+        if (isinstance(e, ast.Call) and isinstance(e.func, ast.Attribute) and e.func.attr in STREAM_METHODS
+                and isinstance(e.func.value, ast.Name)):
+            nm = e.func.value.id
+            if nm in self.stream_params or st.env.get(nm, "").startswith("with("):
+                return e.func.attr
+        return None
+
+    def sym(self, e, st) -> str:
+        """Symbolic value of an expression (text); stream events are emitted in evaluation order."""
+        fn = self.fn.name
+        if e is None:
+            return "None"
+        if isinstance(e, ast.Constant):
+            return repr(e.value)
+        if isinstance(e, ast.JoinedStr):
+            return "'<fstring>'"
+        if isinstance(e, ast.Name):
+            if e.id in st.env:
+                return st.env[e.id]
+            if e.id in self.params:
+                return f"${self.params.index(e.id)}"
+            return e.id
+        if isinstance(e, ast.Attribute):
+            return f"{self._atom(e.value, st)}.{e.attr}"
+        if isinstance(e, ast.Subscript):
+            # stream.peek(1)[:1]
+            if self._stream_call(e.value, st) == "peek":
+                args = ",".join(self.sym(a, st) for a in e.value.args)
+                return st.emit(f"PEEK {args} [{self._slice(e.slice, st)}]")
+            return f"{self._atom(e.value, st)}[{self._slice(e.slice, st)}]"
+        if isinstance(e, ast.Call):
+            return self._call(e, st)
+        if isinstance(e, ast.IfExp):
+            raise TranslationError(f"{fn}: conditional expression in an unsupported position")
+        if isinstance(e, ast.BoolOp):
+            vals = [self.sym(v, st.fork()) for v in e.values[1:]]
+            if any(self._has_event(v, st) for v in e.values[1:]):
+                raise TranslationError(f"{fn}: stream access inside a short-circuit operator")
+            op = " and " if isinstance(e.op, ast.And) else " or "
+            return "(" + op.join([self.sym(e.values[0], st)] + vals) + ")"
+        if isinstance(e, ast.Compare):
+            parts = [self._atom(e.left, st)]
+            for op, c in zip(e.ops, e.comparators):
+                parts.append(_CMP[type(op)])
+                parts.append(self._atom(c, st))
+            return " ".join(parts)
+        if isinstance(e, ast.BinOp):
+            return f"({self.sym(e.left, st)} {_BIN[type(e.op)]} {self.sym(e.right, st)})"
+        if isinstance(e, ast.UnaryOp):
+            return f"({_UN[type(e.op)]}{self.sym(e.operand, st)})"
+        if isinstance(e, (ast.Tuple, ast.List, ast.Set)):
+            o, c = {"Tuple": "()", "List": "[]", "Set": "{}"}[type(e).__name__]
+            return o + ",".join(self.sym(x, st) for x in e.elts) + ("," if isinstance(e, ast.Tuple) and len(e.elts) == 1 else "") + c
+        if isinstance(e, ast.Dict):
+            return "{" + ",".join(f"{self.sym(k, st)}:{self.sym(v, st)}" for k, v in zip(e.keys, e.values)) + "}"
+        if isinstance(e, ast.Starred):
+            return "*" + self.sym(e.value, st)
+        if isinstance(e, (ast.ListComp, ast.GeneratorExp, ast.SetComp, ast.DictComp)):
+            return self._comp(e, st)
+        raise TranslationError(f"{fn}: unsupported expression {type(e).__name__}")
+
+    def _atom(self, e, st):
+        t = self.sym(e, st)
+        return t
+
+    def _slice(self, sl, st):
+        if isinstance(sl, ast.Slice):
+            return ":".join("" if x is None else self.sym(x, st) for x in (sl.lower, sl.upper)) + \
+                ("" if sl.step is None else ":" + self.sym(sl.step, st))
+        return self.sym(sl, st)
+
+    def _has_event(self, e, st):
+        for n in ast.walk(e):
+            if isinstance(n, ast.Call):
+                if self._stream_call(n, st) or (isinstance(n.func, ast.Name) and _is_codec_name(n.func.id)):
                     return True
         return False
 
-    def block(self, stmts):
-        for s in stmts:
-            self.stmt(s)
-
-    def stmt(self, s):
+    def _call(self, e, st):
         fn = self.fn.name
-        if isinstance(s, ast.Expr):
-            if isinstance(s.value, ast.Constant) and isinstance(s.value.value, str):
-                return
-            if isinstance(s.value, ast.Call) and ast.unparse(s.value.func) == "warnings.warn":
-                self.emit("WARN")
-                return
-            self.expr(s.value)
-        elif isinstance(s, ast.Assign):
-            self.expr(s.value)
-            for t in s.targets:  # rebinding a parameter is a decision (e.g. the inferred `compress`)
-                if isinstance(t, ast.Name) and t.id in self.params:
-                    self.emit(f"SET ${self.params.index(t.id)} {self.norm(s.value)}")
-        elif isinstance(s, ast.AnnAssign):
-            self.expr(s.value)
-        elif isinstance(s, ast.AugAssign):
-            self.expr(s.value)
-        elif isinstance(s, ast.If):
-            if not self._significant([s]):
-                return
-            first = True
-            cur = s
-            while True:
-                test_txt = self.norm(cur.test)
-                if any(t in test_txt for t in self.opaque_tests):
-                    self.emit(("IF " if first else "ELIF ") + test_txt)
-                    self.emit("OPAQUE")
-                else:
-                    if _has_effect(cur.test, self.params) and not first:
-                        raise TranslationError(f"{fn}: stream access in an elif test")
-                    self.expr(cur.test)
-                    self.emit(("IF " if first else "ELIF ") + test_txt)
-                    self.block(cur.body)
-                first = False
-                if len(cur.orelse) == 1 and isinstance(cur.orelse[0], ast.If):
-                    cur = cur.orelse[0]
-                    continue
-                if cur.orelse and self._significant(cur.orelse):
-                    self.emit("ELSE")
-                    self.block(cur.orelse)
-                break
-            self.emit("ENDIF")
-        elif isinstance(s, ast.While):
-            if s.orelse:
-                raise TranslationError(f"{fn}: while/else")
-            self.emit(f"LOOP while {self.norm(s.test)}")
-            self.expr(s.test)
-            self.block(s.body)
-            self.emit("ENDLOOP")
-        elif isinstance(s, ast.For):
-            if s.orelse:
-                raise TranslationError(f"{fn}: for/else")
-            if not self._significant([s]):
-                return
-            self.expr(s.iter)
-            self.emit(f"LOOP for in {self.norm(s.iter)}")
-            self.block(s.body)
-            self.emit("ENDLOOP")
-        elif isinstance(s, ast.Return):
-            self.expr(s.value)
-            self.emit("RETURN " + (self.norm(s.value) if s.value is not None else "None"))
-        elif isinstance(s, ast.Raise):
-            exc = s.exc
-            if isinstance(exc, ast.Call):
-                exc = exc.func
-            self.emit("RAISE " + (ast.unparse(exc) if exc is not None else ""))
-        elif isinstance(s, ast.Break):
-            self.emit("BREAK")
-        elif isinstance(s, ast.Continue):
-            self.emit("CONTINUE")
-        elif isinstance(s, ast.Pass):
-            return
-        elif isinstance(s, ast.With):
-            for it in s.items:
-                self.expr(it.context_expr)
-            self.emit("WITH " + ";".join(self.norm(it.context_expr) for it in s.items))
-            self.block(s.body)
-            self.emit("ENDWITH")
+        f = e.func
+        sm = self._stream_call(e, st)
+        # struct.unpack(fmt, stream.read(n))
+        if isinstance(f, ast.Attribute) and f.attr == "unpack" and isinstance(f.value, ast.Name) and f.value.id == "struct":
+            if (len(e.args) == 2 and not e.keywords and isinstance(e.args[0], ast.Constant)
+                    and isinstance(e.args[0].value, str) and self._stream_call(e.args[1], st) == "read"
+                    and len(e.args[1].args) == 1):
+                n = self.sym(e.args[1].args[0], st)
+                return st.emit(f"UNPACK {e.args[0].value} {n}")
+            raise TranslationError(f"{fn}: unexpected struct.unpack shape: {ast.unparse(e)}")
+        if sm == "read":
+            if len(e.args) != 1 or e.keywords:
+                raise TranslationError(f"{fn}: unexpected read() shape")
+            return st.emit(f"READ {self.sym(e.args[0], st)}")
+        if sm == "peek":
+            return st.emit("PEEK " + ",".join(self.sym(a, st) for a in e.args))
+        if sm == "write":
+            if len(e.args) != 1 or e.keywords:
+                raise TranslationError(f"{fn}: unexpected write() shape")
+            x = e.args[0]
+            if (isinstance(x, ast.Call) and isinstance(x.func, ast.Attribute) and x.func.attr == "pack"
+                    and isinstance(x.func.value, ast.Name) and x.func.value.id == "struct"):
+                if not x.args or not isinstance(x.args[0], ast.Constant) or x.keywords:
+                    raise TranslationError(f"{fn}: unexpected struct.pack shape")
+                args = [self.sym(a, st) for a in x.args[1:]]
+                st.emit(f"PACK {x.args[0].value} " + ",".join(args), result=False)
+                return "None"
+            v = self.sym(x, st)
+            if v in self.consts:
+                st.emit(f"WRITE {v}", result=False)
+            elif v.startswith("struct.pack("):
+                raise TranslationError(f"{fn}: struct.pack result written indirectly")
+            else:
+                st.emit(f"WRITERAW {v}", result=False)
+            return "None"
+        if isinstance(f, ast.Name) and _is_codec_name(f.id):
+            args = []
+            for a in e.args:
+                v = self.sym(a, st)
+                if not (isinstance(a, ast.Name) and a.id in self.stream_params):
+                    args.append(v)
+            for k in e.keywords:
+                args.append(f"{k.arg}={self.sym(k.value, st)}")
+            return st.emit(f"CALL {f.id} " + ",".join(args))
+        # idioms with a canonical spelling
+        ftxt = ast.unparse(f)
+        if ftxt == "math.prod" and len(e.args) == 1 and not e.keywords:
+            return f"prod({self.sym(e.args[0], st)})"
+        callee = self.sym(f, st) if not isinstance(f, ast.Name) else (st.env.get(f.id) or f.id)
+        args = [self.sym(a, st) for a in e.args] + [f"{k.arg}={self.sym(k.value, st)}" if k.arg else "**" + self.sym(k.value, st)
+                                                   for k in e.keywords]
+        return f"{callee}({','.join(args)})"
+
+    def _bind_target(self, t, elem, st, index=None):
+        """for-target / comprehension target bound to the element symbol."""
+        if isinstance(t, ast.Name):
+            st.env[t.id] = elem
+        elif isinstance(t, (ast.Tuple, ast.List)):
+            for i, x in enumerate(t.elts):
+                self._bind_target(x, f"{elem}[{i}]", st)
         else:
-            raise TranslationError(f"{fn}: unsupported statement {type(s).__name__}: {ast.unparse(s)[:60]}")
+            raise TranslationError(f"{self.fn.name}: unsupported loop target")
+
+    def _iter(self, it, target, st):
+        """(header text, bind function) for `for target in it`; enumerate(E) is iteration over E with the
+        index available as index(E)."""
+        if (isinstance(it, ast.Call) and isinstance(it.func, ast.Name) and it.func.id == "enumerate"
+                and len(it.args) == 1 and not it.keywords and isinstance(target, (ast.Tuple, ast.List))
+                and len(target.elts) == 2):
+            base = self.sym(it.args[0], st)
+            self._bind_target(target.elts[0], f"index({base})", st)
+            self._bind_target(target.elts[1], f"elem({base})", st)
+            return base
+        base = self.sym(it, st)
+        self._bind_target(target, f"elem({base})", st)
+        return base
+
+    def _comp(self, e, st):
+        fn = self.fn.name
+        if len(e.generators) != 1 or e.generators[0].is_async:
+            raise TranslationError(f"{fn}: unexpected comprehension")
+        g = e.generators[0]
+        inner = st.fork()
+        base = self._iter(g.iter, g.target, inner)
+        st.nev, st.events = inner.nev, inner.events
+        ifs = [self.sym(c, inner) for c in g.ifs]
+        has_ev = any(self._has_event(x, inner) for x in ([e.elt] if not isinstance(e, ast.DictComp) else [e.key, e.value]))
+        if has_ev:
+            if g.ifs or isinstance(e, ast.DictComp):
+                raise TranslationError(f"{fn}: stream access in a filtered / dict comprehension")
+            st.events.append(f"LOOP for in {base}")
+            body = inner.fork()
+            body.events = []
+            v = self.sym(e.elt, body)
+            st.events += ["  " + x for x in body.events]
+            st.nev = body.nev
+            st.events.append("ENDLOOP")
+            kind = {"ListComp": "list", "GeneratorExp": "gen", "SetComp": "set"}[type(e).__name__]
+            return f"{kind}[{v} for in {base}]"
+        cond = (" if " + " and ".join(ifs)) if ifs else ""
+        if isinstance(e, ast.DictComp):
+            k, v = self.sym(e.key, inner), self.sym(e.value, inner)
+            if k == f"elem({base})" and v == f"index({base})" and not ifs:
+                return f"index_table({base})"
+            return "dict[" + k + ":" + v + " for in " + base + cond + "]"
+        kind = {"ListComp": "list", "GeneratorExp": "gen", "SetComp": "set"}[type(e).__name__]
+        return f"{kind}[{self.sym(e.elt, inner)} for in {base}{cond}]"
+
+    # ------------------------------------------------------------------ statements
+    @staticmethod
+    def _split_ifexp(stmt):
+        """A statement containing a conditional expression == an if/else around two copies of it."""
+        for n in ast.walk(stmt):
+            if isinstance(n, ast.IfExp):
+                def repl(which):
+                    class R(ast.NodeTransformer):
+                        def visit_IfExp(self, m):
+                            if m is n_ref[0]:
+                                return getattr(m, which)
+                            return self.generic_visit(m)
+                    c = copy.deepcopy(stmt)
+                    # locate the same node in the copy by position
+                    for a_, b_ in zip(ast.walk(stmt), ast.walk(c)):
+                        if a_ is n:
+                            n_ref[0] = b_
+                            break
+                    return R().visit(c)
+                n_ref = [None]
+                return ast.If(test=copy.deepcopy(n.test), body=[repl("body")], orelse=[repl("orelse")])
+        return None
+
+    def block(self, stmts, states):
+        for s in stmts:
+            nxt = []
+            for st in states:
+                if st.done is not None:
+                    nxt.append(st)
+                else:
+                    nxt += self.stmt(s, st)
+            states = nxt
+            if len(states) > MAX_PATHS:
+                raise TranslationError(f"{self.fn.name}: more than {MAX_PATHS} paths")
+        return states
+
+    def _assign(self, target, value_sym, st):
+        fn = self.fn.name
+        if isinstance(target, ast.Name):
+            st.env[target.id] = value_sym
+        elif isinstance(target, (ast.Tuple, ast.List)):
+            for i, x in enumerate(target.elts):
+                self._assign(x, f"{value_sym}[{i}]", st)
+        elif isinstance(target, ast.Subscript) and isinstance(target.value, ast.Name):
+            d = target.value.id
+            k = self.sym(target.slice, st)
+            cur = st.env.get(d, d)
+            m = _INDEX_TABLE_KEY.match(k)
+            if cur in ("dict()", "{}") and m and value_sym == f"index({m.group(1)})":
+                st.env[d] = f"index_table({m.group(1)})"      # d[x] = i  for i, x in enumerate(E)
+            else:
+                st.env[d] = f"%{d}"                            # mutated local: opaque from here on
+        elif isinstance(target, (ast.Subscript, ast.Attribute)):
+            pass
+        else:
+            raise TranslationError(f"{fn}: unsupported assignment target")
+
+    def _mutated_names(self, stmts):
+        out = set()
+        for s in stmts:
+            for n in ast.walk(s):
+                if isinstance(n, (ast.Assign, ast.AnnAssign, ast.AugAssign)):
+                    ts = n.targets if isinstance(n, ast.Assign) else [n.target]
+                    for t in ts:
+                        for x in ast.walk(t):
+                            if isinstance(x, ast.Name) and isinstance(x.ctx, ast.Store):
+                                out.add(x.id)
+                            if isinstance(x, ast.Subscript) and isinstance(x.value, ast.Name):
+                                out.add(x.value.id)
+                elif isinstance(n, ast.Call) and isinstance(n.func, ast.Attribute) and isinstance(n.func.value, ast.Name) \
+                        and n.func.attr in ("append", "extend", "add", "update", "insert", "pop", "clear", "setdefault"):
+                    out.add(n.func.value.id)
+        return out
+
+    def stmt(self, s, st):
+        fn = self.fn.name
+        split = self._split_ifexp(s) if not isinstance(s, (ast.If, ast.For, ast.While, ast.With)) else None
+        if split is not None:
+            return self.stmt(split, st)
+        if isinstance(s, ast.Expr):
+            if isinstance(s.value, ast.Constant):
+                return [st]
+            if isinstance(s.value, ast.Call) and ast.unparse(s.value.func) == "warnings.warn":
+                st.events.append("WARN")
+                return [st]
+            c = s.value
+            if (isinstance(c, ast.Call) and isinstance(c.func, ast.Attribute) and isinstance(c.func.value, ast.Name)
+                    and c.func.attr in ("append", "extend", "add", "update", "insert") and not self._stream_call(c, st)):
+                for a in c.args:
+                    self.sym(a, st)
+                st.env[c.func.value.id] = f"%{c.func.value.id}"
+                return [st]
+            self.sym(s.value, st)
+            return [st]
+        if isinstance(s, (ast.Assign, ast.AnnAssign)):
+            if s.value is None:
+                return [st]
+            v = self.sym(s.value, st)
+            for t in (s.targets if isinstance(s, ast.Assign) else [s.target]):
+                self._assign(t, v, st)
+            return [st]
+        if isinstance(s, ast.AugAssign):
+            v = self.sym(s.value, st)
+            if isinstance(s.target, ast.Name):
+                cur = st.env.get(s.target.id, s.target.id)
+                st.env[s.target.id] = f"({cur} {_BIN[type(s.op)]}= {v})" if not cur.startswith("%") else cur
+            return [st]
+        if isinstance(s, ast.If):
+            test_txt = None
+            if any(t in ast.unparse(s.test) for t in self.opaque_tests):
+                a = st.fork()
+                a.conds.append("COND " + self.sym(s.test, a))
+                a.done = "OPAQUE"
+                b = st
+                b.conds.append("COND not " + self.sym(s.test, b))
+                return [a] + self.block(s.orelse, [b])
+            a = st.fork()
+            test_txt = self.sym(s.test, a)
+            b = st.fork()
+            self.sym(s.test, b)
+            a.conds.append("COND " + test_txt)
+            b.conds.append("COND not " + test_txt)
+            return self.block(s.body, [a]) + self.block(s.orelse, [b])
+        if isinstance(s, (ast.For, ast.While)):
+            if s.orelse:
+                raise TranslationError(f"{fn}: loop with else")
+            return [self._loop(s, st)]
+        if isinstance(s, ast.Return):
+            v = self.sym(s.value, st)
+            st.done = "RETURN " + v
+            return [st]
+        if isinstance(s, ast.Raise):
+            exc = s.exc.func if isinstance(s.exc, ast.Call) else s.exc
+            st.done = "RAISE " + (ast.unparse(exc) if exc is not None else "")
+            return [st]
+        if isinstance(s, ast.Break):
+            st.done = "BREAK"
+            return [st]
+        if isinstance(s, ast.Continue):
+            st.done = "CONTINUE"
+            return [st]
+        if isinstance(s, ast.Pass):
+            return [st]
+        if isinstance(s, ast.With):
+            ctx = []
+            for it in s.items:
+                c = self.sym(it.context_expr, st)
+                ctx.append(c)
+                if it.optional_vars is not None:
+                    if not isinstance(it.optional_vars, ast.Name):
+                        raise TranslationError(f"{fn}: unsupported with-target")
+                    st.env[it.optional_vars.id] = f"with({c})"
+            st.events.append("WITH " + ";".join(ctx))
+            out = self.block(s.body, [st])
+            for o in out:
+                o.events.append("ENDWITH")
+            return out
+        raise TranslationError(f"{fn}: unsupported statement {type(s).__name__}: {ast.unparse(s)[:60]}")
+
+    def _loop(self, s, st):
+        fn = self.fn.name
+        # acc = 1; for x in S: acc *= x   ==   prod(S)
+        if (isinstance(s, ast.For) and len(s.body) == 1 and isinstance(s.body[0], ast.AugAssign)
+                and isinstance(s.body[0].op, ast.Mult) and isinstance(s.body[0].target, ast.Name)
+                and isinstance(s.body[0].value, ast.Name) and isinstance(s.target, ast.Name)
+                and s.body[0].value.id == s.target.id and st.env.get(s.body[0].target.id) == "1"
+                and not self._has_event(s.iter, st)):
+            st.env[s.body[0].target.id] = f"prod({self.sym(s.iter, st)})"
+            return st
+        mutated = self._mutated_names(s.body)
+        body0 = st.fork()
+        if isinstance(s, ast.For):
+            base = self._iter(s.iter, s.target, body0)
+            st.nev, st.events = body0.nev, list(body0.events)
+            header = f"LOOP for in {base}"
+        else:
+            header = "LOOP while"
+        # names assigned in the body are loop-carried: unknown (opaque) at the top of an iteration, unless the
+        # body only ever gives them the index-table form
+        for nm in mutated:
+            if nm not in ("",) and not (isinstance(s, ast.For) and self._is_index_table_fill(s, nm, body0)):
+                body0.env[nm] = f"%{nm}"
+        body0.events = []
+        body0.conds = []
+        if isinstance(s, ast.While):
+            t = self.sym(s.test, body0)
+            body0.conds.append("COND " + t)
+        paths = self.block(s.body, [body0])
+        # a loop without stream events, control flow or warnings contributes nothing but its bindings
+        significant = any(p.events or (p.done and p.done.split()[0] in ("RETURN", "RAISE")) for p in paths)
+        end = st
+        end.nev = max(p.nev for p in paths)
+        for nm in mutated:
+            vals = {p.env.get(nm) for p in paths}
+            end.env[nm] = vals.pop() if len(vals) == 1 and next(iter(vals or {None}), None) is None else (
+                paths[0].env[nm] if len({p.env.get(nm) for p in paths}) == 1 and str(paths[0].env.get(nm, "")).startswith("index_table(")
+                else f"%{nm}")
+        if not significant:
+            return end
+        end.events.append(header)
+        for p in paths:
+            if len(paths) > 1 or p.conds:
+                end.events.append("  PATH " + " ; ".join(p.conds))
+            end.events += ["  " + x for x in p.events]
+            if p.done:
+                end.events.append("  " + p.done)
+        end.events.append("ENDLOOP")
+        return end
+
+    def _is_index_table_fill(self, loop, name, st):
+        cur = st.env.get(name)
+        if cur not in ("dict()", "{}"):
+            return False
+        for n in ast.walk(ast.Module(body=loop.body, type_ignores=[])):
+            if isinstance(n, (ast.Assign, ast.AugAssign, ast.AnnAssign)):
+                ts = n.targets if isinstance(n, ast.Assign) else [n.target]
+                for t in ts:
+                    if isinstance(t, ast.Name) and t.id == name:
+                        return False
+            if isinstance(n, ast.Call) and isinstance(n.func, ast.Attribute) and isinstance(n.func.value, ast.Name) \
+                    and n.func.value.id == name:
+                return False
+        return True
 
     def run(self):
-        self.block(self.fn.body)
-        return self.events
+        st = _State({})
+        paths = self.block(self.fn.body, [st])
+        out = []
+        for p in paths:
+            out.append("PATH " + " ; ".join(p.conds))
+            out += ["  " + e for e in p.events]
+            out.append("  " + (p.done or "RETURN None"))
+        return _rename_placeholders(out)
 
 
-class _Raw(ast.AST):
-    """Pre-rendered sub-expression (an inlined local), printed in parentheses."""
-    _fields = ()
+import copy  # noqa: E402
+import re  # noqa: E402
 
-    def __init__(self, text):
-        super().__init__()
-        self.text = text
+_INDEX_TABLE_KEY = re.compile(r"^elem\((.*)\)$")
+_CMP = {ast.Eq: "==", ast.NotEq: "!=", ast.Lt: "<", ast.LtE: "<=", ast.Gt: ">", ast.GtE: ">=", ast.Is: "is",
+        ast.IsNot: "is not", ast.In: "in", ast.NotIn: "not in"}
+_BIN = {ast.Add: "+", ast.Sub: "-", ast.Mult: "*", ast.Div: "/", ast.FloorDiv: "//", ast.Mod: "%", ast.Pow: "**",
+        ast.BitOr: "|", ast.BitAnd: "&", ast.BitXor: "^", ast.LShift: "<<", ast.RShift: ">>", ast.MatMult: "@"}
+_UN = {ast.Not: "not ", ast.USub: "-", ast.UAdd: "+", ast.Invert: "~"}
 
 
-def _unparse(node) -> str:
-    class U(ast._Unparser):  # noqa: SLF001 - CPython's own unparser, extended for _Raw
-        def visit__Raw(self, n):
-            self.write("(" + n.text + ")")
+def _rename_placeholders(lines):
+    """Opaque locals (%name) are numbered by first appearance in the output: local names never show."""
+    order = {}
 
-    return U().visit(node)
+    def r(m):
+        return order.setdefault(m.group(0), f"%{len(order)}")
+
+    return [re.sub(r"%[A-Za-z_][A-Za-z0-9_]*", r, ln) for ln in lines]
 
 
 def translate_module(src: str, consts: set[str], prefixes, extra, modname, opaque_tests=()):
